@@ -267,6 +267,7 @@ CONFIG["C16"] = {
 }
 
 CONFIG["C17"] = {
+    "needs_simpcli": True,
     "budget_s": {"quick": 200, "thorough": 600},
     "floor": {"quick": 150000, "thorough": 450000},
     "hang_is_violation": True,
@@ -275,13 +276,14 @@ CONFIG["C17"] = {
              "sub `source-roundtrip`: a case is a source text written by the harness for such a program (sub-expressions named or inline, parenthesised or not, aliases, lines shuffled, comments, type ascriptions with `_` parts, separate type declaration lines, `#{}` CMR expressions, CMR literals, holes); "
              "if it parses to one root, its CMR must be the CMR the harness computes for the written program and render + parse must reproduce roots, node lists and encodings. "
              "sub `arbitrary-strings`: random bytes as UTF-8, token soup over the lexer's alphabet and mutated valid sources: parse must return Ok or a non-empty error list, never panic; anything that parses to one root also goes through render + parse. "
+             "sub `simpcli-roundtrip`: the repository's command-line tool built from the working tree and run as a subprocess: `disassemble <base64>` then `assemble` (and `relabel` then `assemble`) must print the base64 it was given. "
              "sub `fixed-texts`: one source text per defect class met so far (CMR literals, holes, option types, fail, equal named expressions, generated-name collisions, alias chains, types fixed by a #{} expression). "
              "sub `nesting`: 8 nesting shapes (parentheses, unary chains, type parentheses, long sums, comp chains, nested #{}, unclosed parentheses, long chains of named definitions) x depths 10..30000 (thorough: ..100000; named chains 10..20000, thorough ..100000), including 511/512/513 around the parser's nesting limit. "
              "Scope of the generators: no witness or disconnect node is reachable along two paths (neither the bit encoding nor the text format can express that: the encoder writes the node twice, the parser refuses it by rule) and disconnect nodes have holes "
              "(a committed program does not contain the disconnected branch, so its types must not depend on one); a case node and an assertion hiding the same branch never coexist (two nodes with one identity root; C rejects that as unshared). "
              "Non-trivial: programs with at least 3 nodes / strings of any kind; distinct: distinct texts."),
     "assumptions": COMMON_ASSUMPTIONS + ["a generated source text that the parser refuses is outside the property and is counted as inconclusive; a floor keeps the accepted share high"],
-    "counter_floors": {"quick": {"render.second-text-equal": 60000, "string.error-list": 100000, "string.parsed-single-root": 4000, "program.has-assertion": 500, "program.has-disconnect": 3000, "source.feature.cmr-expression": 300, "source.feature.alias": 10000}},
+    "counter_floors": {"quick": {"render.second-text-equal": 60000, "string.error-list": 100000, "string.parsed-single-root": 4000, "program.has-assertion": 500, "program.has-disconnect": 3000, "source.feature.cmr-expression": 300, "source.feature.alias": 10000, "simpcli.roundtrips": 120}},
 }
 
 SAN_ENV_TSAN = {"TSAN_OPTIONS": "halt_on_error=1 exitcode=66 report_signal_unsafe=0 second_deadlock_stack=1"}
